@@ -74,7 +74,7 @@ let run (op_full : string) (a : string array) : string =
   | "parse_lazy_value" ->
       (match parse_lazy_value (unhex a.(0)) with
        | Ok lv ->
-           let al = match lazy_array_length lv with Ok (Some n) -> ZA.to_string (zt_of_n n) | Ok None -> "none" | _ -> "?" in
+           let al = match lazy_array_length_w lv with Ok (Some n) -> ZA.to_string (zt_of_n n) | Ok None -> "none" | _ -> "?" in
            let tv = match lazy_to_value lv with Ok v -> show_val v | Panic -> "panic" | Err _ -> "err" in
            "ok " ^ hex (lazy_to_vec lv) ^ "|" ^ al ^ "|" ^ tv
        | r -> show_res (fun _ -> "") r)
@@ -201,6 +201,59 @@ let run (op_full : string) (a : string array) : string =
       (match value_to_serde v with
        | Ok j -> let back = serde_to_value j in "ok " ^ show_val back ^ " " ^ show_bool (value_eqb back v)
        | r -> show_res (fun _ -> "") r)
+  (* ---- the tree-level API (ValueApi.v): value.rs helpers, Display, from.rs, lazy_value.rs *)
+  | "value_api" ->
+      let v = parse_val a.(0) in
+      let b x = if x then "1" else "0" in
+      let o f x = match x with Some y -> f y | None -> "none" in
+      String.concat " "
+        [ "ok"; "sc=" ^ b (value_is_scalar v); "ob=" ^ b (value_is_object v); "ar=" ^ b (value_is_array v);
+          "st=" ^ b (value_is_string v); "nu=" ^ b (value_is_number v); "i64=" ^ b (value_is_i64 v); "u64=" ^ b (value_is_u64 v);
+          "f64=" ^ b (value_is_f64 v); "bo=" ^ b (value_is_boolean v); "nl=" ^ b (value_is_null v);
+          "as_i64=" ^ o (fun z -> ZA.to_string (zt_of_z z)) (value_as_i64 v);
+          "as_u64=" ^ o (fun n -> ZA.to_string (zt_of_n n)) (value_as_u64 v);
+          "as_f64=" ^ o (fun n -> ZA.format "%016x" (zt_of_n n)) (value_as_f64 v);
+          "as_bool=" ^ o (fun x -> b x) (value_as_bool v);
+          "as_str=" ^ o (fun x -> "s" ^ hexs x) (value_as_str v);
+          "as_number=" ^ o show_num (value_as_number v);
+          "as_array=" ^ o (fun l -> show_val (VArr l)) (value_as_array v);
+          "as_object=" ^ o (fun l -> show_val (VObj l)) (value_as_object v);
+          "alen=" ^ o (fun n -> ZA.to_string (zt_of_n n)) (value_array_length v);
+          "keys=" ^ o show_val (value_object_keys v) ]
+  | "value_get_ci" -> "ok " ^ show_opt show_val (value_get_by_name_ignore_case (parse_val a.(0)) (unhex a.(1)))
+  | "value_eq_variant" -> "ok " ^ show_bool (value_eq_variant (parse_val a.(0)) (parse_val a.(1)))
+  | "display" | "display_bytes" -> "ok " ^ hex (display_t (parse_val a.(0)))
+  | "from_prim" ->
+      let z () = z_of_zt (ZA.of_string a.(1)) and n () = n_of_zt (ZA.of_string a.(1)) in
+      let bits () = n_of_zt (ZA.of_string_base 16 a.(1)) in
+      let ints s = if s = "_" then [] else List.map (fun x -> z_of_zt (ZA.of_string x)) (String.split_on_char ',' s) in
+      let vals s = match parse_val s with VArr l -> l | _ -> failwith "from_prim: list expected" in
+      let v = (match a.(0) with
+        | "i8" | "i16" | "i32" | "i64" | "isize" -> from_i64 (z ())
+        | "u8" | "u16" | "u32" | "u64" | "usize" -> from_u64 (n ())
+        | "f64" | "of64" -> from_f64 (bits ())
+        | "f32" | "of32" -> from_f32 (bits ())
+        | "bool" -> from_bool (a.(1) = "1")
+        | "string" | "str" | "cow" -> from_string (unhex a.(1))
+        | "unit" -> from_unit
+        | "object" -> (match parse_val a.(1) with VObj o -> from_object o | _ -> failwith "from_prim: object expected")
+        | "vec_i32" | "slice_i32" | "iter_i32" -> from_vec from_i64 (ints a.(1))
+        | "vec_value" | "iter_value" -> from_vec (fun x -> x) (vals a.(1))
+        | "vec_str" -> from_vec from_string (hexlist a.(1))
+        | "pairs" ->
+            (* k1,k2,.. (hex) and a value list of the same length, in iteration order (repeated keys allowed) *)
+            from_pairs (fun x -> x) (List.combine (hexlist a.(1)) (vals a.(2)))
+        | k -> failwith ("from_prim: unknown kind " ^ k)) in
+      "ok " ^ show_val v
+  | "lazy_value" | "lazy_raw" ->
+      let lv = if op = "lazy_value" then lazy_of_value (parse_val a.(0)) else LRaw (unhex a.(0)) in
+      (* only to_value is run under catch_unwind by the harness: a panic of array_length is the outcome of the whole case *)
+      (match lazy_array_length_w lv with
+       | Panic -> "panic"
+       | r ->
+           let al = match r with Ok (Some n) -> ZA.to_string (zt_of_n n) | Ok None -> "none" | _ -> "err" in
+           let tv = match lazy_to_value lv with Ok v -> show_val v | Panic -> "panic" | Err _ -> "err" in
+           "ok " ^ hex (lazy_to_vec lv) ^ "|" ^ al ^ "|" ^ tv ^ "|" ^ hex (lazy_write_to_vec prefix lv))
   | "chain" ->
       let regs = run_b (hexlist a.(0)) (chain_ops (List.tl (Array.to_list a))) in
       "ok " ^ String.concat "," (List.map hex regs)
